@@ -5,7 +5,7 @@
 # replay the same file on the unchanged tree (must exit 0). Writes /verif/seeded/RESULTS.md.
 # Never leaves /repo modified (trap).
 cd /verif || exit 2
-trap 'git -C /repo checkout -- . 2>/dev/null' EXIT
+trap 'git -C /repo checkout -- . 2>/dev/null; git -C /repo clean -fdq -- cfgrammar lrtable lrpar lrlex 2>/dev/null' EXIT
 if [ -n "$(git -C /repo status --short)" ]; then echo "/repo is not clean"; exit 2; fi
 SEEDS="$@"; [ -z "$SEEDS" ] && SEEDS=$(ls seeded | grep -E '^C[0-9]+-s[0-9]+$')
 OUT=seeded/RESULTS.md
@@ -33,7 +33,7 @@ for s in $SEEDS; do
     cp "$rp" /verif/target/seedmatrix_replay.json
     timeout 3000 ./check $prop quick --replay /verif/target/seedmatrix_replay.json > $log.r 2>&1; e2=$?
   fi
-  git -C /repo checkout -- .
+  git -C /repo apply -R /verif/$P 2>/dev/null; git -C /repo checkout -- .
   if [ -f /verif/target/seedmatrix_replay.json ] && [ "$e2" != "-" ]; then
     timeout 3000 ./check $prop quick --replay /verif/target/seedmatrix_replay.json > $log.u 2>&1; e3=$?
   fi
